@@ -698,12 +698,13 @@ qs_xt:  Xchg(tl[self], TailOf(WQ), Hd(WQ));
         cur[self] := hd[self]; cbc[self] := 0;
 qi_ld:  Ld(nx[self], NextOf(cur[self]));                          \* __cds_wfcq_for_each_blocking_safe
         if (nx[self] = NULL /\ cur[self] # tl[self]) { goto qi_ld };
-rz_reg: if (Flavor = "bp") { if (self \notin reg) { call bp_register() } }   \* uwp->func(uwp) = do_resize_cb: ht->flavor->register_thread()
-        else { call register() };
+        \* uwp->func(uwp) = do_resize_cb, order as repaired for finding F6: the mutex is taken before the thread registers as a reader
 rz_lock: Lock(RM);                                                \* mutex_lock(&ht->resize_mutex)
-        call do_resize();                                         \* _do_cds_lfht_resize(ht)
-rz_unl: Unlock(RM);                                               \* mutex_unlock(&ht->resize_mutex)
-rz_unreg: if (Flavor # "bp") { call unregister() };               \* ht->flavor->unregister_thread(); free(work)
+rz_reg: if (Flavor = "bp") { if (self \notin reg) { call bp_register() } }   \* ht->flavor->register_thread()
+        else { call register() };
+rz_do:  call do_resize();                                         \* _do_cds_lfht_resize(ht)
+rz_unreg: if (Flavor # "bp") { call unregister() };               \* ht->flavor->unregister_thread()
+rz_unl: Unlock(RM);                                               \* mutex_unlock(&ht->resize_mutex); free(work)
 qi_nxt: cbc[self] := cbc[self] + 1;
         cur[self] := nx[self];
         if (nx[self] # NULL) { goto qi_ld };
@@ -754,6 +755,10 @@ t_disp:   if (opx[self].op = "call") { call call_rcu() }
           else if (opx[self].op = "setcpu") { goto t_scl }
           else if (opx[self].op = "before") { call before_fork() }
           else if (opx[self].op = "after") { if (inchild) { call after_child() } else { call after_parent() } }
+          \* a second RCU flavor with a hash table of its own: its call_rcu_before_fork / after_fork_* reach the SAME rculfhash atfork handlers
+          \* (registered with every flavor that has a table; cds_lfht_workqueue_atfork_nesting makes only the outermost pair act)
+          else if (opx[self].op = "before2") { call lf_before() }
+          else if (opx[self].op = "after2") { if (inchild) { call lf_after_child() } else { call lf_after_parent() } }
           else if (opx[self].op = "bpbefore") { call bp_before() }
           else if (opx[self].op = "bpafter") { if (inchild) { call bp_after_child() } else { call bp_after_parent() } }
           else if (opx[self].op = "fork") { goto t_fork }
@@ -4031,7 +4036,7 @@ qi_ld(self) == /\ pc[self] = "qi_ld"
                /\ acc' = Ev(self, "ld", (NextOf(cur[self])), "-", "-", SV((NextOf(cur[self])), Rd(self, (NextOf(cur[self])))))
                /\ IF nx'[self] = NULL /\ cur[self] # tl[self]
                      THEN /\ pc' = [pc EXCEPT ![self] = "qi_ld"]
-                     ELSE /\ pc' = [pc EXCEPT ![self] = "rz_reg"]
+                     ELSE /\ pc' = [pc EXCEPT ![self] = "rz_lock"]
                /\ UNCHANGED << mem, sb, mx, fsleep, wloc, crlist, ncrd, nh, 
                                started, hobj, cpulen, pcpu, tcrd, mycpu, slot, 
                                smask, bpsaved, nest, hsize, nw, nk, nrw, wk, 
@@ -4042,17 +4047,32 @@ qi_ld(self) == /\ pc[self] = "qi_ld"
                                cidef, cn, bk, regs, kk, om, tgt, asz, cl, ord, 
                                gps, stack >>
 
+rz_lock(self) == /\ pc[self] = "rz_lock"
+                 /\ Drained(self) /\ mx[RM] = "free"
+                 /\ mx' = [mx EXCEPT ![RM] = self]
+                 /\ acc' = Ev(self, "lock", RM, "-", "-", "-")
+                 /\ pc' = [pc EXCEPT ![self] = "rz_reg"]
+                 /\ UNCHANGED << mem, sb, fsleep, wloc, crlist, ncrd, nh, 
+                                 started, hobj, cpulen, pcpu, tcrd, mycpu, 
+                                 slot, smask, bpsaved, nest, hsize, nw, nk, 
+                                 nrw, wk, reg, rnest, ncs, ingp, gpstuck, 
+                                 forked, inchild, gone, forker, bdone, flags, 
+                                 cnt, called, queued, bsnap, alive, uaf, errs, 
+                                 pci, opx, iv, pa, hd, tl, old, cur, nx, cbc, 
+                                 en, ec, wc, gd, fc, dc, newc, cidef, cn, bk, 
+                                 regs, kk, om, tgt, asz, cl, ord, gps, stack >>
+
 rz_reg(self) == /\ pc[self] = "rz_reg"
                 /\ IF Flavor = "bp"
                       THEN /\ IF self \notin reg
                                  THEN /\ stack' = [stack EXCEPT ![self] = << [ procedure |->  "bp_register",
-                                                                               pc        |->  "rz_lock" ] >>
+                                                                               pc        |->  "rz_do" ] >>
                                                                            \o stack[self]]
                                       /\ pc' = [pc EXCEPT ![self] = "br_mask"]
-                                 ELSE /\ pc' = [pc EXCEPT ![self] = "rz_lock"]
+                                 ELSE /\ pc' = [pc EXCEPT ![self] = "rz_do"]
                                       /\ stack' = stack
                       ELSE /\ stack' = [stack EXCEPT ![self] = << [ procedure |->  "register",
-                                                                    pc        |->  "rz_lock" ] >>
+                                                                    pc        |->  "rz_do" ] >>
                                                                 \o stack[self]]
                            /\ pc' = [pc EXCEPT ![self] = "rg_lock"]
                 /\ UNCHANGED << mem, sb, mx, acc, fsleep, wloc, crlist, ncrd, 
@@ -4065,46 +4085,28 @@ rz_reg(self) == /\ pc[self] = "rz_reg"
                                 wc, gd, fc, dc, newc, cidef, cn, bk, regs, kk, 
                                 om, tgt, asz, cl, ord, gps >>
 
-rz_lock(self) == /\ pc[self] = "rz_lock"
-                 /\ Drained(self) /\ mx[RM] = "free"
-                 /\ mx' = [mx EXCEPT ![RM] = self]
-                 /\ acc' = Ev(self, "lock", RM, "-", "-", "-")
-                 /\ stack' = [stack EXCEPT ![self] = << [ procedure |->  "do_resize",
-                                                          pc        |->  "rz_unl" ] >>
-                                                      \o stack[self]]
-                 /\ pc' = [pc EXCEPT ![self] = "rz_st1"]
-                 /\ UNCHANGED << mem, sb, fsleep, wloc, crlist, ncrd, nh, 
-                                 started, hobj, cpulen, pcpu, tcrd, mycpu, 
-                                 slot, smask, bpsaved, nest, hsize, nw, nk, 
-                                 nrw, wk, reg, rnest, ncs, ingp, gpstuck, 
-                                 forked, inchild, gone, forker, bdone, flags, 
-                                 cnt, called, queued, bsnap, alive, uaf, errs, 
-                                 pci, opx, iv, pa, hd, tl, old, cur, nx, cbc, 
-                                 en, ec, wc, gd, fc, dc, newc, cidef, cn, bk, 
-                                 regs, kk, om, tgt, asz, cl, ord, gps >>
-
-rz_unl(self) == /\ pc[self] = "rz_unl"
-                /\ Drained(self)
-                /\ mx' = [mx EXCEPT ![RM] = "free"]
-                /\ acc' = Ev(self, "unlock", RM, "-", "-", "-")
-                /\ pc' = [pc EXCEPT ![self] = "rz_unreg"]
-                /\ UNCHANGED << mem, sb, fsleep, wloc, crlist, ncrd, nh, 
-                                started, hobj, cpulen, pcpu, tcrd, mycpu, slot, 
-                                smask, bpsaved, nest, hsize, nw, nk, nrw, wk, 
-                                reg, rnest, ncs, ingp, gpstuck, forked, 
-                                inchild, gone, forker, bdone, flags, cnt, 
-                                called, queued, bsnap, alive, uaf, errs, pci, 
-                                opx, iv, pa, hd, tl, old, cur, nx, cbc, en, ec, 
-                                wc, gd, fc, dc, newc, cidef, cn, bk, regs, kk, 
-                                om, tgt, asz, cl, ord, gps, stack >>
+rz_do(self) == /\ pc[self] = "rz_do"
+               /\ stack' = [stack EXCEPT ![self] = << [ procedure |->  "do_resize",
+                                                        pc        |->  "rz_unreg" ] >>
+                                                    \o stack[self]]
+               /\ pc' = [pc EXCEPT ![self] = "rz_st1"]
+               /\ UNCHANGED << mem, sb, mx, acc, fsleep, wloc, crlist, ncrd, 
+                               nh, started, hobj, cpulen, pcpu, tcrd, mycpu, 
+                               slot, smask, bpsaved, nest, hsize, nw, nk, nrw, 
+                               wk, reg, rnest, ncs, ingp, gpstuck, forked, 
+                               inchild, gone, forker, bdone, flags, cnt, 
+                               called, queued, bsnap, alive, uaf, errs, pci, 
+                               opx, iv, pa, hd, tl, old, cur, nx, cbc, en, ec, 
+                               wc, gd, fc, dc, newc, cidef, cn, bk, regs, kk, 
+                               om, tgt, asz, cl, ord, gps >>
 
 rz_unreg(self) == /\ pc[self] = "rz_unreg"
                   /\ IF Flavor # "bp"
                         THEN /\ stack' = [stack EXCEPT ![self] = << [ procedure |->  "unregister",
-                                                                      pc        |->  "qi_nxt" ] >>
+                                                                      pc        |->  "rz_unl" ] >>
                                                                   \o stack[self]]
                              /\ pc' = [pc EXCEPT ![self] = "ug_lock"]
-                        ELSE /\ pc' = [pc EXCEPT ![self] = "qi_nxt"]
+                        ELSE /\ pc' = [pc EXCEPT ![self] = "rz_unl"]
                              /\ stack' = stack
                   /\ UNCHANGED << mem, sb, mx, acc, fsleep, wloc, crlist, ncrd, 
                                   nh, started, hobj, cpulen, pcpu, tcrd, mycpu, 
@@ -4115,6 +4117,21 @@ rz_unreg(self) == /\ pc[self] = "rz_unreg"
                                   pci, opx, iv, pa, hd, tl, old, cur, nx, cbc, 
                                   en, ec, wc, gd, fc, dc, newc, cidef, cn, bk, 
                                   regs, kk, om, tgt, asz, cl, ord, gps >>
+
+rz_unl(self) == /\ pc[self] = "rz_unl"
+                /\ Drained(self)
+                /\ mx' = [mx EXCEPT ![RM] = "free"]
+                /\ acc' = Ev(self, "unlock", RM, "-", "-", "-")
+                /\ pc' = [pc EXCEPT ![self] = "qi_nxt"]
+                /\ UNCHANGED << mem, sb, fsleep, wloc, crlist, ncrd, nh, 
+                                started, hobj, cpulen, pcpu, tcrd, mycpu, slot, 
+                                smask, bpsaved, nest, hsize, nw, nk, nrw, wk, 
+                                reg, rnest, ncs, ingp, gpstuck, forked, 
+                                inchild, gone, forker, bdone, flags, cnt, 
+                                called, queued, bsnap, alive, uaf, errs, pci, 
+                                opx, iv, pa, hd, tl, old, cur, nx, cbc, en, ec, 
+                                wc, gd, fc, dc, newc, cidef, cn, bk, regs, kk, 
+                                om, tgt, asz, cl, ord, gps, stack >>
 
 qi_nxt(self) == /\ pc[self] = "qi_nxt"
                 /\ cbc' = [cbc EXCEPT ![self] = cbc[self] + 1]
@@ -4309,11 +4326,12 @@ helper(self) == h_idle(self) \/ h_flags(self) \/ h_reg(self)
                    \/ qp_wait(self) \/ qp_and(self) \/ qs_e1(self)
                    \/ qs_e2(self) \/ qs_xh(self) \/ qs_lt(self)
                    \/ qs_mb(self) \/ qs_xt(self) \/ qi_ld(self)
-                   \/ rz_reg(self) \/ rz_lock(self) \/ rz_unl(self)
-                   \/ rz_unreg(self) \/ qi_nxt(self) \/ q_sub(self)
-                   \/ q_stop(self) \/ q_e1(self) \/ q_e2(self)
-                   \/ qw_mb(self) \/ qw_ld(self) \/ qw_fwait(self)
-                   \/ qw_fwoke(self) \/ qw_dec(self) \/ qw_mb2(self)
+                   \/ rz_lock(self) \/ rz_reg(self) \/ rz_do(self)
+                   \/ rz_unreg(self) \/ rz_unl(self) \/ qi_nxt(self)
+                   \/ q_sub(self) \/ q_stop(self) \/ q_e1(self)
+                   \/ q_e2(self) \/ qw_mb(self) \/ qw_ld(self)
+                   \/ qw_fwait(self) \/ qw_fwoke(self) \/ qw_dec(self)
+                   \/ qw_mb2(self)
 
 t_top(self) == /\ pc[self] = "t_top"
                /\ IF pci[self] <= Len(Prog[self])
@@ -4440,29 +4458,44 @@ t_disp(self) == /\ pc[self] = "t_disp"
                                                                                                                                                                                                         pc        |->  "t_ret" ] >>
                                                                                                                                                                                                     \o stack[self]]
                                                                                                                                                                /\ pc' = [pc EXCEPT ![self] = "af_0"]
-                                                                                                                                               ELSE /\ IF opx[self].op = "bpbefore"
-                                                                                                                                                          THEN /\ stack' = [stack EXCEPT ![self] = << [ procedure |->  "bp_before",
+                                                                                                                                               ELSE /\ IF opx[self].op = "before2"
+                                                                                                                                                          THEN /\ stack' = [stack EXCEPT ![self] = << [ procedure |->  "lf_before",
                                                                                                                                                                                                         pc        |->  "t_ret" ] >>
                                                                                                                                                                                                     \o stack[self]]
-                                                                                                                                                               /\ pc' = [pc EXCEPT ![self] = "bb_mask"]
-                                                                                                                                                          ELSE /\ IF opx[self].op = "bpafter"
+                                                                                                                                                               /\ pc' = [pc EXCEPT ![self] = "lb_nest"]
+                                                                                                                                                          ELSE /\ IF opx[self].op = "after2"
                                                                                                                                                                      THEN /\ IF inchild
-                                                                                                                                                                                THEN /\ stack' = [stack EXCEPT ![self] = << [ procedure |->  "bp_after_child",
+                                                                                                                                                                                THEN /\ stack' = [stack EXCEPT ![self] = << [ procedure |->  "lf_after_child",
                                                                                                                                                                                                                               pc        |->  "t_ret" ] >>
                                                                                                                                                                                                                           \o stack[self]]
-                                                                                                                                                                                     /\ pc' = [pc EXCEPT ![self] = "bc_url"]
-                                                                                                                                                                                ELSE /\ stack' = [stack EXCEPT ![self] = << [ procedure |->  "bp_after_parent",
+                                                                                                                                                                                     /\ pc' = [pc EXCEPT ![self] = "lc_nest"]
+                                                                                                                                                                                ELSE /\ stack' = [stack EXCEPT ![self] = << [ procedure |->  "lf_after_parent",
                                                                                                                                                                                                                               pc        |->  "t_ret" ] >>
                                                                                                                                                                                                                           \o stack[self]]
-                                                                                                                                                                                     /\ pc' = [pc EXCEPT ![self] = "ba_url"]
-                                                                                                                                                                     ELSE /\ IF opx[self].op = "fork"
-                                                                                                                                                                                THEN /\ pc' = [pc EXCEPT ![self] = "t_fork"]
-                                                                                                                                                                                ELSE /\ IF opx[self].op = "add"
-                                                                                                                                                                                           THEN /\ pc' = [pc EXCEPT ![self] = "t_add"]
-                                                                                                                                                                                           ELSE /\ IF opx[self].op = "resize"
-                                                                                                                                                                                                      THEN /\ pc' = [pc EXCEPT ![self] = "t_rs1"]
-                                                                                                                                                                                                      ELSE /\ pc' = [pc EXCEPT ![self] = "t_htw"]
-                                                                                                                                                                          /\ stack' = stack
+                                                                                                                                                                                     /\ pc' = [pc EXCEPT ![self] = "lp_nest"]
+                                                                                                                                                                     ELSE /\ IF opx[self].op = "bpbefore"
+                                                                                                                                                                                THEN /\ stack' = [stack EXCEPT ![self] = << [ procedure |->  "bp_before",
+                                                                                                                                                                                                                              pc        |->  "t_ret" ] >>
+                                                                                                                                                                                                                          \o stack[self]]
+                                                                                                                                                                                     /\ pc' = [pc EXCEPT ![self] = "bb_mask"]
+                                                                                                                                                                                ELSE /\ IF opx[self].op = "bpafter"
+                                                                                                                                                                                           THEN /\ IF inchild
+                                                                                                                                                                                                      THEN /\ stack' = [stack EXCEPT ![self] = << [ procedure |->  "bp_after_child",
+                                                                                                                                                                                                                                                    pc        |->  "t_ret" ] >>
+                                                                                                                                                                                                                                                \o stack[self]]
+                                                                                                                                                                                                           /\ pc' = [pc EXCEPT ![self] = "bc_url"]
+                                                                                                                                                                                                      ELSE /\ stack' = [stack EXCEPT ![self] = << [ procedure |->  "bp_after_parent",
+                                                                                                                                                                                                                                                    pc        |->  "t_ret" ] >>
+                                                                                                                                                                                                                                                \o stack[self]]
+                                                                                                                                                                                                           /\ pc' = [pc EXCEPT ![self] = "ba_url"]
+                                                                                                                                                                                           ELSE /\ IF opx[self].op = "fork"
+                                                                                                                                                                                                      THEN /\ pc' = [pc EXCEPT ![self] = "t_fork"]
+                                                                                                                                                                                                      ELSE /\ IF opx[self].op = "add"
+                                                                                                                                                                                                                 THEN /\ pc' = [pc EXCEPT ![self] = "t_add"]
+                                                                                                                                                                                                                 ELSE /\ IF opx[self].op = "resize"
+                                                                                                                                                                                                                            THEN /\ pc' = [pc EXCEPT ![self] = "t_rs1"]
+                                                                                                                                                                                                                            ELSE /\ pc' = [pc EXCEPT ![self] = "t_htw"]
+                                                                                                                                                                                                /\ stack' = stack
                                                                                                                    /\ tcrd' = tcrd
                 /\ UNCHANGED << mem, sb, mx, acc, fsleep, wloc, crlist, ncrd, 
                                 nh, started, hobj, cpulen, pcpu, mycpu, slot, 
@@ -4916,6 +4949,9 @@ Spec == /\ Init /\ [][Next]_vars
                                  /\ WF_vars(before_fork(self))
                                  /\ WF_vars(after_child(self))
                                  /\ WF_vars(after_parent(self))
+                                 /\ WF_vars(lf_before(self))
+                                 /\ WF_vars(lf_after_child(self))
+                                 /\ WF_vars(lf_after_parent(self))
                                  /\ WF_vars(bp_before(self))
                                  /\ WF_vars(bp_after_child(self))
                                  /\ WF_vars(bp_after_parent(self))
@@ -4926,10 +4962,7 @@ Spec == /\ Init /\ [][Next]_vars
                                  /\ WF_vars(wake(self))
                                  /\ WF_vars(enqueue(self))
                                  /\ WF_vars(get_default(self))
-                                 /\ WF_vars(lf_before(self))
-                                 /\ WF_vars(lf_after_child(self))
                                  /\ WF_vars(data_free0(self))
-                                 /\ WF_vars(lf_after_parent(self))
 
 \* END TRANSLATION
 
@@ -4968,7 +5001,7 @@ DeadlockFree == AllDone \/ ENABLED GNext
 NoErrs == errs = {}
 NoUaf == ~uaf
 \* the rculfhash atfork nesting counter stays within the number of registered flavors
-NestOK == nest \in 0..1
+NestOK == nest \in 0..(IF \E t \in Threads : \E k \in DOMAIN Prog[t] : Prog[t][k].op = "before2" THEN 2 ELSE 1)   \* one level per flavor with a table
 \* the child never keeps a mutex of a thread that does not exist once its handlers have run: implied by DeadlockFree / liveness
 \* types
 TypeOK == /\ \A q \in Qs : mem[FutexOf(q)] \in -2..0 /\ mem[QlenOf(q)] \in -(Cardinality(QNodes))..(Cardinality(QNodes))
